@@ -318,6 +318,9 @@ func checkC13(p *Prog, r *Report) {
 	yamlKeysRule(p, r, "C13.yaml-keys", []string{"CropParam", "CropDevelopmentStage"})
 	inputHelpers(p, r, "C13.input-helpers")
 	yearExtensionRule(p, r, "C13.year-files")
+	// all three layouts reach the model through the same year lookup: it hands over the days of that year and nothing
+	// from the slots behind them, whose content depends on the layout's buffer (shared with C04.R5)
+	c04LoadYear(p, r, "C13.year-lookup")
 }
 
 func short(k string) string { return strings.TrimPrefix(k, "hermes.") }
